@@ -14,5 +14,7 @@ if os.path.exists(V+"/tools/design7_benign.md"):
         sec+="\n"+open(V+"/benign/RESULTS.md").read().replace("# Behaviour-preserving","#### Behaviour-preserving")
 if os.path.exists(V+"/tools/design7_hunt.md"):
     sec+=open(V+"/tools/design7_hunt.md").read()
+if os.path.exists(V+"/tools/design7_round5.md"):
+    sec+=open(V+"/tools/design7_round5.md").read()
 open(V+"/DESIGN.md","w").write(d+sec)
 print("DESIGN.md section 7 regenerated")
